@@ -3,6 +3,9 @@ Case format: '10 | op ; op ; ...' over a growing pool of handle slots (slot ids 
 '0 m v' CArc::from(v)  '1 m v' CArcSome::from(v)  '2 m v' Arc::new(v)  '3 h' CArc::from(Arc in slot h)
 '4 h' CArcSome::from(Arc)  '5' empty CArc (from None / default)  '6 h' clone  '7 h' take  '8 h' CArc->Option<CArcSome>
 '9 h' CArcSome->CArc  '10 h' into_opaque  '11 h' into_arc  '12 h' drop.  After the script every slot is dropped in order.
+'10 1 | ..' the same with FOREIGN counting clone/drop functions in every handle (monitor: the stored function runs once per clone / release).
+'210 | ..' calls view: creation ops with m = 1 make handles of module 1 (counting functions); per op the rows are [result] ; [runs of module 1's clone fn, of its drop fn],
+   compared with the model's event log projected on module 1 (Arc.v calls_of; theorems C10_calls_view / C10_calls_rows).
 Output: three rows per op: result [code ok new-slot], payload destructors that ran, and the observation of the whole pool
 (per slot: kind 0 dead/1 empty CArc/2 CArc/3 CArcSome/4 Arc, strong count of its target, payload it dereferences to).
 Monitor (model independent): strong count == number of live handles to the allocation after every op; allocator balance,
@@ -23,7 +26,7 @@ TRUSTED = [
     "Rust harness harness/rt (strong count read through Arc::from_raw in ManuallyDrop; tracking allocator)",
     "std::sync::Arc: atomicity of its count operations and its drop-at-zero semantics; weak-memory effects not modelled",
 ]
-ASSUMPTIONS = ["std::sync::Arc is correct and its count operations are atomic", "single-module runs: the module tags of the model are exercised by C05's cross-module harness only"]
+ASSUMPTIONS = ["std::sync::Arc is correct and its count operations are atomic", "one process: module 1 of the model is played by handles built through the published three-field layout with counting functions of the harness (case ids 10 1 / 210); two separately compiled copies of cglue are exercised by C05's cross-module harness"]
 
 NEW = [[0, 1, 7], [1, 1, 8], [2, 1, 9], [5]]
 
@@ -125,6 +128,15 @@ def gen_cases(rng, tier):
     for _ in range(nfor):
         cases.append(random_script(r3, maxlen).replace("10 |", "10 1 |", 1))
     dist["foreign_function_histories"] = nfor + min(400, len(exhaustive(2)))
+    # the model's module tags made observable ('210 | ..'): handles of module 1 carry counting functions; per op the number of runs of module 1's
+    # clone and drop functions must equal the model's event log projected on module 1 (theorem C10_calls_view)
+    r4 = rng.fork("calls")
+    ncalls = {"quick": 800, "search": 1000}.get(tier, 8000)
+    for c in exhaustive(3 if tier != "quick" else 2):
+        cases.append(c.replace("10 |", "210 |", 1))
+    for _ in range(ncalls):
+        cases.append(random_script(r4, maxlen).replace("10 |", "210 |", 1))
+    dist["module_call_view_histories"] = ncalls
     # the same operations issued concurrently: one history on several threads over shared allocations ('110 <threads> <rounds> | history')
     nthr = {"quick": 250, "search": 400}.get(tier, 3000)
     r2 = rng.fork("threads")
